@@ -56,6 +56,9 @@ ASSUMPTIONS = [
     "empty store and the semantic part of c07_check decides (statuses, the set of user assignments observed to extend "
     "against the set the theorem predicts; C20_memory_independent); every SAT probe over <= 10 variables observes "
     "that projection (PySAT, a solver of the harness' own) and it is part of the digest",
+    "YAML-read allocations taken through initial_allocation / refine / re-read (kind allocflow) and netlists changed "
+    "in place after loading are compared by digest only; the tolerance candidate of an allocflow operation is that of "
+    "its Allocation (constructed before its netlist)",
     "pattern families (same index pattern, other line coordinates) on grids of more than 20 cells / hard modules "
     "of more than 8 rectangles are compared by digest only (stream exact-large)",
 ]
@@ -1629,6 +1632,18 @@ def run(ctx, out, replay=None):
                 "P1 with E as the cofactor by its heaviest literal, P2 unrelated, P3 = E, P4 unrelated; d is taken "
                 "from the measured node counts of the probe so that the store reaches T exactly / passes T at the "
                 "start of P2, P3, P4, in the middle of P2, and at the start of the probe. "
+                "READ FROM YAML, THEN CHANGED IN PLACE (8 groups quick, 90 thorough): an allocation over a 2..4 x "
+                "1..3 grid given as YAML text or tree (cells as number lists) taken through must_be_refined, refine, "
+                "initial_allocation with a netlist, griddify, uniform depth, write_yaml + read again; its history holds "
+                "the SAME cells (empty, same contents, other contents, one column less, reversed, text / tree) whose "
+                "netlist has a fixed module exactly covering one or two cells (initial_allocation tags them fixed) and "
+                "the refine / re-read loop; every fourth group is one netlist text (trunk + branch hard module, soft "
+                "modules, a fixed one) loaded and changed by create_squares / create_stogs / recenter_rectangles / "
+                "fixed flags before the probe loads the same text. The SAT operations of a history also call the public "
+                "methods of SATManager that post nothing (prioritize with negated literals, setflipped, isflipped, "
+                "newaux, printclauses, tocnf, solve, value, evalexpr, newvar with another prefix) on the variable names "
+                "the probed manager registers; a SAT probe also observes tocnf(), isflipped and, when it solves, "
+                "value() of every variable in both polarities and evalexpr. "
                 "non-trivial = non-empty history; distinct by (order-sensitive) hash")
     cases = []
     if replay and "case" in replay:
